@@ -9,6 +9,10 @@ import Fundraising.Proofs.ExecLemmas
 namespace Fundraising
 open Fundraising.Gen Fundraising.Go
 
+-- the simp sets below name every fact the handlers could test, in every spelling: which of them
+-- a given translation of the Go source uses depends on how that source is factored
+set_option linter.unusedSimpArgs false
+
 /-- the hook dispatcher does not look at the module state: it commutes with any change of `s` -/
 private theorem dispatchTo_withS (name : String) (args : List String) (is : List Nat) (c : Ctx) (s' : Core) :
     dispatchTo name args is { c with s := s' } =
@@ -42,16 +46,22 @@ private theorem bankCall_now {c c' : Ctx} {k : XKind} {src dst : Addr} {coins : 
 theorem tie_CreateFixedPriceAuction (c : Ctx) (m : CreateMsg) (hty : m.type = .fixed) (hacc : validAcc m.auctioneer = true) :
     createAuction c m =
       Go.runPlanNew c ({ a := default } : AView) (Gen.CreateFixedPriceAuction m c.s.now (c.s.views.length : Int)).2 := by
-  unfold createAuction Gen.CreateFixedPriceAuction
-  simp only [hty, hacc, tie_ShouldAuctionStarted, newBaseAuction, newFixedPriceAuction, sellingCoin, index,
-    Int.toNat_natCast, List.nil_append, List.cons_append, apply_ite Prod.snd, apply_ite (runPlanNew c _)]
+  unfold createAuction
+  -- the case analysis is done on the MODEL-level guards first; the translated handler is only
+  -- unfolded under a complete set of facts, so that it reduces whatever its control structure is
   by_cases h1 : c.s.now > m.endTime
-  · simp [h1, runPlanNew, Ctx.check, Ctx.fail, bind, Except.bind, pure, Except.pure]
+  · simp [Gen.CreateFixedPriceAuction, h1, runPlanNew, Ctx.check, Ctx.fail, bind, Except.bind, pure, Except.pure]
   by_cases h2 : (m.schedules.length : Int) > 100
   · have : ¬ m.schedules.length ≤ 100 := by omega
-    simp [h1, h2, this, runPlanNew, Ctx.check, Ctx.fail, bind, Except.bind, pure, Except.pure]
+    simp [Gen.CreateFixedPriceAuction, h1, h2, this, runPlanNew, Ctx.check, Ctx.fail, bind, Except.bind, pure, Except.pure]
   have h2' : m.schedules.length ≤ 100 := by omega
-  simp only [h1, h2, h2', runPlanNew, Ctx.check, runEffs_cons, runEffs_nil, applyEff]
+  by_cases h4 : m.startTime ≤ c.s.now
+  all_goals
+  simp only [Gen.CreateFixedPriceAuction, hty, hacc, h1, h2, h2', h4, tie_ShouldAuctionStarted, newBaseAuction,
+    newFixedPriceAuction, sellingCoin, index, Int.toNat_natCast, List.nil_append, List.cons_append, List.append_nil, List.append_assoc,
+    apply_ite Prod.fst, apply_ite Prod.snd, ite_self, and_self, and_true, true_and, decide_true, decide_false,
+    Bool.not_true, Bool.not_false, if_true, if_false, Bool.false_eq_true, ite_true, ite_false]
+  simp only [runPlanNew, Ctx.check, runEffs_cons, runEffs_nil, applyEff]
   have hargs0 : createHookArgs m none =
       [rAcc m.auctioneer, rInt m.startPrice, rNat m.sellDenom, rInt m.sellAmt, rNat m.payDenom] ++
         rSchedules m.schedules ++ [rInt m.startTime, rInt m.endTime] := by
@@ -81,26 +91,29 @@ theorem tie_CreateFixedPriceAuction (c : Ctx) (m : CreateMsg) (hty : m.type = .f
           | error e => simp [hmk, hsend, hb, ha, bind, Except.bind, pure, Except.pure]
           | ok c4 =>
             have s4 := (hook_ok ha).1
-            simp [hmk, hsend, hb, ha, bind, Except.bind, pure, Except.pure, s4, n1, n2]
-            split <;> rfl
+            simp [hmk, hsend, hb, ha, bind, Except.bind, pure, Except.pure, s4, n1, n2, h4]
 /-- **CreateBatchAuction.** -/
 theorem tie_CreateBatchAuction (c : Ctx) (m : CreateMsg) (hty : m.type = .batch) (hacc : validAcc m.auctioneer = true) :
     createAuction c m =
       Go.runPlanNew c ({ a := default } : AView) (Gen.CreateBatchAuction m c.s.now (c.s.views.length : Int)).2 := by
-  unfold createAuction Gen.CreateBatchAuction
-  simp only [hty, hacc, tie_ShouldAuctionStarted, newBaseAuction, newBatchAuction, sellingCoin, index,
-    Int.toNat_natCast, List.nil_append, List.cons_append, apply_ite Prod.snd, apply_ite (runPlanNew c _)]
+  unfold createAuction
   by_cases h1 : c.s.now > m.endTime
-  · simp [h1, runPlanNew, Ctx.check, Ctx.fail, bind, Except.bind, pure, Except.pure]
+  · simp [Gen.CreateBatchAuction, h1, runPlanNew, Ctx.check, Ctx.fail, bind, Except.bind, pure, Except.pure]
   by_cases h2 : (m.schedules.length : Int) > 100
   · have : ¬ m.schedules.length ≤ 100 := by omega
-    simp [h1, h2, this, runPlanNew, Ctx.check, Ctx.fail, bind, Except.bind, pure, Except.pure]
+    simp [Gen.CreateBatchAuction, h1, h2, this, runPlanNew, Ctx.check, Ctx.fail, bind, Except.bind, pure, Except.pure]
   have h2' : m.schedules.length ≤ 100 := by omega
   by_cases h3 : (m.maxExt : Int) > 30
   · have : ¬ m.maxExt ≤ 30 := by omega
-    simp [h1, h2, h2', h3, this, runPlanNew, Ctx.check, Ctx.fail, bind, Except.bind, pure, Except.pure]
+    simp [Gen.CreateBatchAuction, hty, h1, h2, h2', h3, this, runPlanNew, Ctx.check, Ctx.fail, bind, Except.bind, pure, Except.pure]
   have h3' : m.maxExt ≤ 30 := by omega
-  simp only [h1, h2, h2', h3, h3', runPlanNew, Ctx.check, runEffs_cons, runEffs_nil, applyEff]
+  by_cases h4 : m.startTime ≤ c.s.now
+  all_goals
+  simp only [Gen.CreateBatchAuction, hty, hacc, h1, h2, h2', h3, h3', h4, tie_ShouldAuctionStarted, newBaseAuction,
+    newBatchAuction, sellingCoin, index, Int.toNat_natCast, List.nil_append, List.cons_append, List.append_nil, List.append_assoc,
+    apply_ite Prod.fst, apply_ite Prod.snd, ite_self, and_self, and_true, true_and, decide_true, decide_false,
+    Bool.not_true, Bool.not_false, if_true, if_false, Bool.false_eq_true, ite_true, ite_false]
+  simp only [runPlanNew, Ctx.check, runEffs_cons, runEffs_nil, applyEff]
   have hargs0 : createHookArgs m none =
       [rAcc m.auctioneer, rInt m.startPrice, rInt m.minBid, rNat m.sellDenom, rInt m.sellAmt, rNat m.payDenom] ++
         rSchedules m.schedules ++ [rNat m.maxExt, rInt m.rate, rInt m.startTime, rInt m.endTime] := by
@@ -130,7 +143,6 @@ theorem tie_CreateBatchAuction (c : Ctx) (m : CreateMsg) (hty : m.type = .batch)
           | error e => simp [hmk, hsend, hb, ha, bind, Except.bind, pure, Except.pure]
           | ok c4 =>
             have s4 := (hook_ok ha).1
-            simp [hmk, hsend, hb, ha, bind, Except.bind, pure, Except.pure, s4, n1, n2]
-            split <;> rfl
+            simp [hmk, hsend, hb, ha, bind, Except.bind, pure, Except.pure, s4, n1, n2, h4]
 
 end Fundraising
